@@ -20,6 +20,8 @@ Fixpoint dset (k : str) (v : list str) (d : attrs) : attrs :=
 Definition dhas (k : str) (d : attrs) : bool := match dget k d with Some _ => true | None => false end.
 Definition dappend (k : str) (vs : list str) (d : attrs) : attrs :=
   match dget k d with Some old => dset k (old ++ vs) d | None => dset k vs d end.
+(* the values under a key ([] when absent) *)
+Definition vals (k : str) (m : attrs) : list str := match dget k m with Some v => v | None => [] end.
 
 (* ---- dialect ---- *)
 Record dialect := mkDialect {
